@@ -28,8 +28,17 @@ func pick[T any](dt *drv.T, label string, xs ...T) T {
 	return drv.SampledFrom(xs).Draw(dt, label)
 }
 
+// chance is true with probability of about pct percent. The driver's integer generators are biased towards
+// small values, so the decision is built from unbiased Bool draws; it shrinks towards false.
 func chance(dt *drv.T, label string, pct int) bool {
-	return drv.IntRange(0, 99).Draw(dt, label) < pct
+	v := 0
+	for i := 0; i < 7; i++ {
+		v <<= 1
+		if drv.Bool().Draw(dt, label) {
+			v |= 1
+		}
+	}
+	return (127-v)*100/128 >= 100-pct
 }
 
 func sPool(ik string) []int64 {
